@@ -53,7 +53,7 @@ def w_c18(seed):
             op = rnd.choice(ops_all)
             h = rnd.choice(handles)
             if op in ("push_front", "push_back"):
-                prog.append(f"{op} {h} {rnd.choice(['1', '2', '3', 'NaN'])}")
+                prog.append(f"{op} {h} {rnd.choice(['1', '2', '3', 'NaN', '0', '-0'])}")
             elif op == "clone" and len(handles) < 4:
                 n = "abcd"[len(handles)]
                 handles.append(n)
@@ -77,14 +77,19 @@ FAILING = [
     ("runtime error after import and definitions", "use extra::astronomy\nlet vx_q = 1\nfn vx_f(x) = x\nunit vx_u\nprint(\"vx-printed\")\nlet vx_z = 1 / 0"),
     ("failed assertion", "let vx_q = 1\nassert(1 == 2)"),
     ("parse error", "let vx_q = 1\nlet = 3"),
+    ("runtime error after plain expressions", "7\n\"seven\"\n1 / 0"),
+    ("runtime error in single expression", "8 / 0"),
 ]
-PROBES = ["vx_q", "vx_f(1)", "vx_u", "lunar_radius -> km", "use extra::astronomy\nlunar_radius -> km", "let vx_q = 2\nvx_q", "fn vx_f(x) = 2 x\nvx_f(1)", "1 + 1"]
+PRE = ["2 + 3"]
+PROBES = ["ans", "_ * 2", "vx_q", "vx_f(1)", "vx_u", "lunar_radius -> km", "use extra::astronomy\nlunar_radius -> km", "let vx_q = 2\nvx_q", "fn vx_f(x) = 2 x\nvx_f(1)", "1 + 1"]
 
 
 def w_c06(seed, want_c02=False):
-    base, _ = session(PROBES)
+    base0, _ = session(PRE + PROBES)
+    base = {i: base0.get(i + len(PRE)) for i in range(len(PROBES))}
     for name, bad in FAILING:
-        got, raw = session([bad] + PROBES)
+        got0, raw = session(PRE + [bad] + PROBES)
+        got = {i: got0.get(i + len(PRE)) for i in range(len(PROBES) + 1)}
         if want_c02:
             first = got.get(0, [])
             kinds = [k for k, _ in first]
@@ -93,7 +98,7 @@ def w_c06(seed, want_c02=False):
             continue
         for i in range(len(PROBES)):
             if got.get(i + 1) != base.get(i):
-                text = "\n%%\n".join([bad] + PROBES)
+                text = "\n%%\n".join(PRE + [bad] + PROBES)
                 return {"found": True, "kind": "session", "what": f"after failing input ({name}) probe `{PROBES[i]}` gives {got.get(i + 1)} instead of {base.get(i)}",
                         "input": text, "output": raw[:2000], "cmd": f"{BIN} session", "stdin": text}
     return {"found": False, "note": f"{len(FAILING)} failing inputs x {len(PROBES)} probes: session behaves as if the failing input had not been submitted"}
